@@ -6,8 +6,10 @@
    return (wire events), plus bytes of an incomplete message left at return (partials).          *)
 EXTENDS DeliveryAbs, TraceCommon
 
-VARIABLES l, scen, viol, dead, call, wires, hits, gone, joined, jwait, owed
-tvars == <<avars, l, scen, viol, dead, call, wires, hits, gone, joined, jwait, owed>>
+VARIABLES l, scen, viol, dead, call, wires, hits, gone, joined, jwait, owed, orphans
+\* orphans: messages of sends the application abandoned while they were pending: their bytes may still leave later (nothing is demanded of a
+\* send that did not return), on the connection they had been started on
+tvars == <<avars, l, scen, viol, dead, call, wires, hits, gone, joined, jwait, owed, orphans>>
 svars == <<hits, gone, joined, jwait, owed>>
 
 E == Rec[l]
@@ -16,12 +18,12 @@ NoFlag == UNCHANGED <<viol, dead>>
 Step(evname) == l <= NRec /\ E.ev = evname /\ l' = l + 1
 
 TInit == AInit /\ l = 1 /\ scen = 0 /\ viol = {} /\ dead = FALSE /\ call = <<>> /\ wires = <<>> /\ hits = <<>> /\ gone = {}
-         /\ joined = {} /\ jwait = EmptyMap /\ owed = FALSE
+         /\ joined = {} /\ jwait = EmptyMap /\ owed = FALSE /\ orphans = {}
 
 TReset == Step("reset") /\ scen' = E.scen /\ stype' = E.sock /\ conn' = {} /\ ident' = <<>> /\ pend' = <<>> /\ cut' = <<>> /\ credit' = 0
-          /\ dead' = FALSE /\ call' = <<>> /\ wires' = <<>> /\ hits' = <<>> /\ gone' = {} /\ joined' = {} /\ jwait' = EmptyMap /\ owed' = FALSE /\ UNCHANGED viol
+          /\ dead' = FALSE /\ call' = <<>> /\ wires' = <<>> /\ hits' = <<>> /\ gone' = {} /\ joined' = {} /\ jwait' = EmptyMap /\ owed' = FALSE /\ orphans' = {} /\ UNCHANGED viol
 \* a peer joins: the rotation window restarts; the joiner must be served within the next n successes
-TAttachRet == Step("attach_ret") /\ UNCHANGED <<scen, call, wires, owed>> /\
+TAttachRet == Step("attach_ret") /\ UNCHANGED <<scen, call, wires, owed, orphans>> /\
    IF E.res = "ok" THEN DoAdmit(E.c, E.id) /\ hits' = <<>> /\ joined' = joined \cup {E.c} /\ jwait' = Put(jwait, E.c, 0)
         \* a connection that announces the identity of an older one supersedes it: the older one no longer is "the peer of that identity"
         /\ gone' = (IF Fld(E, "auto", FALSE) THEN gone ELSE gone \cup {c \in conn : ident[c] = E.id})
@@ -31,16 +33,21 @@ TAttachRet == Step("attach_ret") /\ UNCHANGED <<scen, call, wires, owed>> /\
            ELSE IF ~Fld(E, "auto", FALSE) /\ Has(E, "announced") /\ E.announced # E.id THEN Flag("C09/announced-identity-not-used")
            ELSE NoFlag
    ELSE UNCHANGED <<avars, hits, joined, jwait, gone>> /\ NoFlag
-TWrote == Step("peer_wrote") /\ UNCHANGED <<scen, call, wires, svars>> /\ NoFlag /\ DoWrote(E.c, E.m)
+TWrote == Step("peer_wrote") /\ UNCHANGED <<scen, call, wires, svars, orphans>> /\ NoFlag /\ DoWrote(E.c, E.m)
 \* the peer's end is closed / its pipe broken: from now on it counts as departed (sends to it may fail or succeed
 \* until the socket has noticed; rotation is not judged across such a change)
 RestartWindows == jwait' = [x \in DOMAIN jwait |-> IF jwait[x] >= 0 THEN 0 ELSE jwait[x]]
-TCut == Step("peer_cut") /\ UNCHANGED <<scen, call, wires, joined, owed>> /\ NoFlag /\ DoCut(E.c, "err") /\ hits' = <<>> /\ gone' = gone \cup {E.c} /\ RestartWindows
-TPipe == Step("pipe") /\ UNCHANGED <<scen, call, wires, joined, owed>> /\ NoFlag /\
+TCut == Step("peer_cut") /\ UNCHANGED <<scen, call, wires, joined, owed, orphans>> /\ NoFlag /\ DoCut(E.c, "err") /\ hits' = <<>> /\ gone' = gone \cup {E.c} /\ RestartWindows
+TPipe == Step("pipe") /\ UNCHANGED <<scen, call, wires, joined, owed, orphans>> /\ NoFlag /\
    IF E.what = "break" THEN DoCut(E.c, "err") /\ hits' = <<>> /\ gone' = gone \cup {E.c} /\ RestartWindows ELSE UNCHANGED <<avars, hits, gone, jwait>>
+OnWire(m) == IF stype = "REQ" THEN <<Empty>> \o m ELSE m
 TWire == Step("wire") /\ UNCHANGED <<avars, scen, call, svars>> /\ NoFlag /\
-   wires' = IF E.k = "msg" THEN Append(wires, <<E.c, E.m>>) ELSE wires
-TSendCall == Step("send_call") /\ UNCHANGED <<avars, scen, svars>> /\ NoFlag /\ call' = <<"send", E.m>> /\ wires' = <<>>
+   IF E.k = "msg" /\ E.m \in orphans /\ (call = <<>> \/ E.m # OnWire(call[2])) THEN orphans' = orphans \ {E.m} /\ UNCHANGED wires
+   ELSE orphans' = orphans /\ wires' = (IF E.k = "msg" THEN Append(wires, <<E.c, E.m>>) ELSE wires)
+\* the application gave up on a pending send: whatever of it leaves later is nobody's result
+TSendDropped == Step("send_dropped") /\ UNCHANGED <<avars, scen, svars>> /\ NoFlag /\ wires' = <<>> /\
+   (IF call # <<>> THEN orphans' = orphans \cup {OnWire(call[2])} ELSE UNCHANGED orphans) /\ call' = <<>>
+TSendCall == Step("send_call") /\ UNCHANGED <<avars, scen, svars, orphans>> /\ NoFlag /\ call' = <<"send", E.m>> /\ wires' = <<>>
 
 Alive == conn \ gone
 NoPartials == ~Has(E, "partials")
@@ -69,7 +76,6 @@ RouterSendRet ==
   ELSE Flag("C03/panic")
 
 \* ---- C10: round-robin senders ---------------------------------------------------------------
-OnWire(m) == IF stype = "REQ" THEN <<Empty>> \o m ELSE m
 RRSendRet ==
   LET m == call[2] IN
   IF E.res = "ok" THEN
@@ -83,8 +89,10 @@ RRSendRet ==
               n == Cardinality(Alive)
               jw == [x \in DOMAIN jwait |-> IF x = c THEN 0 - 1 ELSE IF jwait[x] >= 0 THEN jwait[x] + 1 ELSE jwait[x]] IN
           /\ hits' = h /\ jwait' = jw /\ owed' = (stype = "REQ") /\ UNCHANGED <<gone, joined>>
-          /\ IF gone = {} /\ n >= 1 /\ Len(h) >= 2 /\ ~Distinct(LastN(h, IF Len(h) < n THEN Len(h) ELSE n)) THEN Flag("C10/rotation-repeat-within-n")
-             ELSE IF gone = {} /\ \E x \in DOMAIN jw : x \in Alive /\ jw[x] > n THEN Flag("C10/joiner-never-served")
+          \* (hits restarts whenever a peer joins, is superseded, closes or breaks: the window is a stretch with a stable set; a
+          \* connection that has gone but whose end the socket has not noticed yet may still take turns: it only adds distinct targets)
+          /\ IF n >= 1 /\ Len(h) >= 2 /\ ~Distinct(LastN(h, IF Len(h) < n THEN Len(h) ELSE n)) THEN Flag("C10/rotation-repeat-within-n")
+             ELSE IF \E x \in DOMAIN jw : x \in Alive /\ jw[x] > Cardinality(conn) THEN Flag("C10/joiner-never-served")
              ELSE NoFlag
   ELSE IF E.res = "err" THEN
      (IF conn = {} THEN
@@ -94,16 +102,19 @@ RRSendRet ==
       ELSE IF stype = "REQ" /\ owed THEN
          (IF wires # <<>> THEN Flag("C08/refused-call-wrote-bytes") ELSE IF Returned # m THEN Flag("C08/refused-call-lost-message") ELSE NoFlag)
       ELSE IF gone = {} /\ DOMAIN cut = {} THEN Flag("C10/send-failed-with-healthy-peers")
+      \* "not connected to peers" although a peer whose connection is fine is registered
+      ELSE IF Alive # {} /\ Returned # <<"absent">> /\ Fld(E, "err", "") = "ReturnToSender:Not connected to peers. Unable to send messages"
+           THEN Flag("C10/no-peer-error-with-connected-peers")
       ELSE NoFlag) /\ hits' = <<>> /\ UNCHANGED <<gone, joined, jwait, owed>>
   ELSE UNCHANGED svars /\ Flag("C03/panic")
 
-TSendRet == Step("send_ret") /\ UNCHANGED <<avars, scen>> /\ call' = <<>> /\ wires' = <<>> /\
+TSendRet == Step("send_ret") /\ UNCHANGED <<avars, scen, orphans>> /\ call' = <<>> /\ wires' = <<>> /\
    IF dead \/ call = <<>> THEN UNCHANGED svars /\ NoFlag
    ELSE IF stype = "ROUTER" THEN UNCHANGED svars /\ RouterSendRet
    ELSE RRSendRet
 
 \* ---- C09: ROUTER recv labels ------------------------------------------------------------------
-TRecvRet == Step("recv_ret") /\ UNCHANGED <<scen, call, wires, hits, gone, joined, jwait>> /\
+TRecvRet == Step("recv_ret") /\ UNCHANGED <<scen, call, wires, hits, gone, joined, jwait, orphans>> /\
    IF dead \/ E.res # "ok" THEN UNCHANGED <<avars, owed>> /\ NoFlag
    ELSE IF stype = "ROUTER" THEN
       LET body == Tail(E.m)
@@ -117,12 +128,12 @@ TRecvRet == Step("recv_ret") /\ UNCHANGED <<scen, call, wires, hits, gone, joine
       ELSE UNCHANGED avars /\ Flag("C09/recv-label-not-sender")
    ELSE IF stype = "REQ" THEN UNCHANGED avars /\ owed' = FALSE /\ NoFlag
    ELSE UNCHANGED <<avars, owed>> /\ NoFlag
-TPanic == Step("panic") /\ UNCHANGED <<avars, scen, call, wires, svars>> /\ Flag("C03/panic")
-THarness == Step("harness_error") /\ UNCHANGED <<avars, scen, call, wires, svars>> /\ Flag("harness/script-error")
-Ignored == {"observed", "peer_part", "peer_bytes", "attach_call", "attach_pending", "released", "recv_call", "recv_pending", "recv_dropped", "send_pending", "send_dropped",
+TPanic == Step("panic") /\ UNCHANGED <<avars, scen, call, wires, svars, orphans>> /\ Flag("C03/panic")
+THarness == Step("harness_error") /\ UNCHANGED <<avars, scen, call, wires, svars, orphans>> /\ Flag("harness/script-error")
+Ignored == {"observed", "peer_part", "peer_bytes", "attach_call", "attach_pending", "released", "recv_call", "recv_pending", "recv_dropped", "send_pending",
             "quiescent", "end", "expect_wire", "sub_call", "sub_ret"}
-TIgnore == l <= NRec /\ E.ev \in Ignored /\ l' = l + 1 /\ UNCHANGED <<avars, scen, call, wires, svars>> /\ NoFlag
-TNext == TReset \/ TAttachRet \/ TWrote \/ TCut \/ TPipe \/ TWire \/ TSendCall \/ TSendRet \/ TRecvRet \/ TPanic \/ THarness \/ TIgnore
+TIgnore == l <= NRec /\ E.ev \in Ignored /\ l' = l + 1 /\ UNCHANGED <<avars, scen, call, wires, svars, orphans>> /\ NoFlag
+TNext == TReset \/ TAttachRet \/ TWrote \/ TCut \/ TPipe \/ TWire \/ TSendCall \/ TSendDropped \/ TSendRet \/ TRecvRet \/ TPanic \/ THarness \/ TIgnore
 TSpec == TInit /\ [][TNext]_tvars
 Accepted == Consumed
 =============================================================================
